@@ -85,11 +85,18 @@ def run(prop, eng, tier, seed):
             cmd += ['--harness', 'verif_kani::' + h['fn']]
         env = dict(os.environ, CARGO_NET_OFFLINE='true', CARGO_TARGET_DIR=shared_target())
         env.pop('RUSTUP_TOOLCHAIN', None)
+        # own process group, so that a timeout leaves no cbmc behind
+        import signal
+        pr = subprocess.Popen(cmd, cwd=w, env=env, stdout=subprocess.PIPE, stderr=subprocess.STDOUT, text=True, start_new_session=True)
         try:
-            p = subprocess.run(cmd, cwd=w, env=env, stdout=subprocess.PIPE, stderr=subprocess.STDOUT, text=True, timeout=3000)
+            out, _ = pr.communicate(timeout=3000 if tier == 'quick' else 14400)
         except subprocess.TimeoutExpired:
+            try:
+                os.killpg(pr.pid, signal.SIGKILL)
+            except OSError:
+                pass
+            pr.wait()
             raise Undecided("kani timed out")
-        out = p.stdout
         # parse per harness
         res = {}
         cur = {}          # thread -> harness being checked
